@@ -200,7 +200,10 @@ func checkC12(c c12Case) verdict {
 				keep(u.String(), "URL text")
 			}
 		case "ParseOTPAuthURL":
-			u, err := url.Parse("otpauth://totp/" + url.PathEscape("Iss:"+st.Text) + "?secret=ABC&digits=" + fmt.Sprint(st.Digits) + "&period=" + fmt.Sprint(st.Period) + "&issuer=Iss")
+			// type in any letter case (also unsupported ones), odd labels, user info, fragment: whatever the outcome, the URL stays as it was
+			host := []string{"totp", "hotp", "TOTP", "Hotp", "hOTP", "MOTP", "totp:80", ""}[st.U%8]
+			scheme := []string{"otpauth", "otpauth", "otpauth", "OTPAUTH", "http"}[(st.U>>8)%5]
+			u, err := url.Parse(scheme + "://" + []string{"", "user:pw@"}[(st.U>>16)%2] + host + "/" + url.PathEscape("Iss:"+st.Text) + "?secret=ABC&digits=" + fmt.Sprint(st.Digits) + "&period=" + fmt.Sprint(st.Period) + "&issuer=Iss&ALGORITHM=sha1&algorithm=" + []string{"SHA1", "sha256", "md5"}[(st.U>>24)%3] + "#frag")
 			if err == nil {
 				before := *u
 				var ui url.Userinfo
